@@ -43,11 +43,11 @@ def gen_lines(rng, quick):
     for n in PW_LENGTHS + (PW_LONG[:2] if quick else PW_LONG):
         for alg in (1, 2):
             lines.append(f"p2m {NAME[alg]} {rand_pw(rng, n).hex()}")
-    for _ in range(60 if quick else 1500):
+    for _ in range(120 if quick else 3000):
         alg = rng.choice([1, 2])
         lines.append(f"p2m {NAME[alg]} {rand_pw(rng, rng.choice(PW_LENGTHS[:18])).hex()}")
     lines += ["p2m md5 -", "p2m sha1 -", "getkey 1 -", "getkey 2 -", "getkey 0 70", "getkey 3 70", "getkey 64 70"]
-    for _ in range(200 if quick else 5000):
+    for _ in range(400 if quick else 10000):
         alg = rng.choice([1, 2])
         kl = KS[alg] if rng.random() < 0.7 else rng.choice([0, 1, 8, 15, 16, 17, 19, 20, 21, 32, 64])
         key = bytes(rng.getrandbits(8) for _ in range(kl))
@@ -170,7 +170,7 @@ def run(chk, model_ok=True):
     from gufo.snmp.user import Aes128Key, DesKey, KeyType, Md5Key, Sha1Key, User
     n_api = n_sess = 0
     all_sess = []
-    for k in range(40 if quick else 1200):
+    for k in range(80 if quick else 2400):
         alg = rng.choice([1, 2])
         cls = Md5Key if alg == 1 else Sha1Key
         pw = rand_pw(rng, rng.choice(PW_LENGTHS[:18]))
@@ -191,7 +191,7 @@ def run(chk, model_ok=True):
         if rb[0] == "ok" or not rb[2]:
             fail(f"{cls.__name__}.get_master_key(b'') = {rb}", f"getkey {alg} -")
     # sessions configured through user.py with each key type: the MAC / ciphertext of what they emit must verify
-    for k in range(30 if quick else 600):
+    for k in range(60 if quick else 1200):
         auth = rng.choice([1, 2])
         priv = rng.choice([0, 1, 2])
         akt, pkt = rng.choice(["password", "master", "localized"]), rng.choice(["password", "master", "localized"])
@@ -230,7 +230,7 @@ def run(chk, model_ok=True):
                 fail(f"{s.label} ({akt}/{pkt} keys): {why}", s.line())
     # malformed key material at the socket constructor: exception, never a crash
     n_ctor = 0
-    for k in range(150 if quick else 3000):
+    for k in range(300 if quick else 6000):
         aa = rng.choice([1, 2, 3, 0]) | rng.choice([0, 64, 128, 192])
         pa = rng.choice([0, 1, 2, 3]) | rng.choice([0, 64, 128, 192])
         akey = bytes(rng.getrandbits(8) for _ in range(rng.choice([0, 1, 15, 16, 17, 19, 20, 21, 32, 64])))
